@@ -206,3 +206,6 @@ func VerifRibRoutes() []VerifRibRoute {
 	walk(&Rib.RibEntry)
 	return out
 }
+
+// VerifResetReadvertisers forgets the readvertisers registered so far (every management thread registers one).
+func VerifResetReadvertisers() { readvertisers = make([]RibReadvertise, 0) }
